@@ -12,9 +12,15 @@
    All five statements of DESIGN section 6 are proved at full strength:
    C17_transparent quantifies over every operation of the model (Get, Items deep and shallow, Ls,
    Info, DiffHash, FsLs, FsInfo, FsRead, ViewItems, ViewLs) and every sequence; answers are equal as
-   values ([val]), not up to reordering. *)
+   values ([val]), not up to reordering.
+
+   Faults (directory objects unreadable for a while, index.onerror swallowing or raising): the
+   environment is part of the run ([run_env], operations OHide / ORestore).  C17_failed_load_unchanged,
+   C17_loads_only (no hypothesis at all), C17_faulty_run and C17_failed_load_retries: a failed load is
+   never remembered as a load, so once everything is readable again the lazy index answers like the
+   fully loaded one, whatever was accessed while it was not. *)
 From Coq Require Import NArith List Bool.
-From DvcData Require Import Base.Val Model.IndexLoad Proofs.IndexLoadBase Proofs.IndexLoadProofs Proofs.IndexLoadMore Proofs.IndexLoadThms Proofs.IndexLoadExplicit Proofs.IndexLoadDecide.
+From DvcData Require Import Base.Val Model.IndexLoad Proofs.IndexLoadBase Proofs.IndexLoadProofs Proofs.IndexLoadMore Proofs.IndexLoadThms Proofs.IndexLoadExplicit Proofs.IndexLoadDecide Proofs.IndexLoadFaults.
 Import ListNotations.
 Open Scope N_scope.
 
@@ -111,3 +117,35 @@ Theorem C17_fs_read_none : forall E h, blob_of E h = None <->
   forall st, In (Some st) (roles_read E) -> assoc (s_blobs st) h = None.
 Proof. exact blob_none. Qed.
 Print Assumptions C17_fs_read_none.
+
+(* ---- faults ---- *)
+(* a load that finds no loadable object leaves the index unchanged (the entry stays unloaded) *)
+Theorem C17_failed_load_unchanged : forall E s i,
+  (forall x, In x i -> s x = true -> loadable E x = true -> listing_of E (snd x) = None) ->
+  load_where E s i = i.
+Proof. exact failed_load_unchanged. Qed.
+Print Assumptions C17_failed_load_unchanged.
+
+(* in any environment and any state, an access changes the index by loads only *)
+Theorem C17_loads_only : forall E o i, exists s, fst (step E i o) = load_where E s i.
+Proof. exact step_loads_only. Qed.
+Print Assumptions C17_loads_only.
+
+(* through any history of accesses and of objects disappearing and re-appearing: loading what is left
+   in the restored environment gives the loaded index, well-formedness is kept, nothing new is loadable *)
+Theorem C17_faulty_run : forall ops E i, wf E i ->
+  let '(E1, i1, _) := run_env E i ops in
+  unhide E1 = unhide E /\
+  load_all (unhide E) i1 = load_all (unhide E) i /\
+  wf (unhide E) i1 /\
+  (forall y, In y i1 -> loadable (unhide E) y = true -> In y i).
+Proof. exact faulty_run. Qed.
+Print Assumptions C17_faulty_run.
+
+(* hence: after any such history, in the restored environment every sequence of accesses answers
+   exactly like the fully loaded index *)
+Theorem C17_failed_load_retries : forall E i ops1 E1 i1 l ops2,
+  wf E i -> ok (unhide E) i -> run_env E i ops1 = (E1, i1, l) ->
+  answers (unhide E) i1 ops2 = answers (unhide E) (load_all (unhide E) i) ops2.
+Proof. exact retries. Qed.
+Print Assumptions C17_failed_load_retries.
